@@ -3,6 +3,7 @@ package main
 import (
 	"bytes"
 	"fmt"
+	"math/big"
 	"strings"
 
 	sdk "github.com/cosmos/cosmos-sdk/types"
@@ -83,11 +84,48 @@ func c16Weights() L1Weights {
 	return w
 }
 
+// c16Prefix: two or three bridges, each with funded escrow, one proposed output that is final
+// and one or more paid withdrawals, so that the exported state regularly has several bridges
+// with claim records (per-bridge selection / aliasing mistakes in export need that).
+func (sc *L1Scenario) c16Prefix() {
+	e, c := sc.Env, sc.Case
+	nb := 2 + sc.R.Intn(2)
+	for i := 0; i < nb; i++ {
+		c.Do(sc.Create(e.User(7).Str, sc.NewConfig(uint64(1+i), uint64(2+i), sec)))
+	}
+	var pts []*ProposedTree
+	for b := uint64(1); b <= uint64(nb); b++ {
+		for _, d := range sc.Denoms {
+			sender := e.User(uint64(1 + sc.R.Intn(6))).Str
+			sc.reg(sender)
+			c.Do(sc.op(L1Op{Kind: "deposit", Sender: sender, Bridge: b, To: "l2recipient", Denom: d, Amt: big.NewInt(500)}))
+		}
+		pt := sc.MakeTree(b, 2+sc.R.Intn(3))
+		pt.Idx = 1
+		prop, _, _, _ := sc.Config(b)
+		sc.reg(prop)
+		if c.Do(sc.op(L1Op{Kind: "propose", Sender: prop, Bridge: b, Idx: 1, L2: 5, Root: pt.Root})).OK {
+			sc.Trees = append(sc.Trees, pt)
+			pts = append(pts, pt)
+		}
+	}
+	sc.Advance(3 * sec)
+	for _, pt := range pts {
+		n := 1 + sc.R.Intn(len(pt.Tree.Ws))
+		for i := 0; i < n; i++ {
+			c.Do(sc.Claim(pt, i, e.User(3).Str))
+		}
+	}
+}
+
 // runC16L1 builds one case; returns nil export when the round trip could not even be started.
-func runC16L1(seed uint64, id int, histLen, probeLen int, rep *Report) *c16L1Result {
+func runC16L1(seed uint64, id int, histLen, probeLen int, scripted bool, rep *Report) *c16L1Result {
 	// pass 1: generate history + probes on a live instance
 	sc := NewL1Scenario(seed, id, nil)
 	sc.wts = c16Weights()
+	if scripted {
+		sc.c16Prefix()
+	}
 	for i := 0; i < histLen; i++ {
 		sc.RandomStep()
 	}
@@ -140,6 +178,13 @@ func runC16L1(seed uint64, id int, histLen, probeLen int, rep *Report) *c16L1Res
 		}
 	}
 	rep.Hist(fmt.Sprintf("l1-state:bridges=%d", nb))
+	withClaims := 0
+	for _, b := range gs.Bridges {
+		if len(b.ProvenWithdrawals) > 0 {
+			withClaims++
+		}
+	}
+	rep.Hist(fmt.Sprintf("l1-state:bridges-with-claims=%d", withClaims))
 	if err := ophosttypes.ValidateGenesis(gs, e.AK.AddressCodec()); err != nil {
 		viol(nHist, "C16:l1-validate", "ValidateGenesis rejects the exported genesis of a reached state: "+err.Error(), string(json1))
 		return res
@@ -222,7 +267,7 @@ func genC16(seed uint64, tier, outdir string) *Report {
 		if k%6 == 5 {
 			hl = histLen / 5 // young states: bridges without deposits or outputs (absent counters)
 		}
-		r := runC16L1(seed*100003+uint64(k), id, hl, probeLen, rep)
+		r := runC16L1(seed*100003+uint64(k), id, hl, probeLen, k%3 == 1, rep)
 		c := r.Case
 		rep.CountCase(strings.Join(l1OpsHuman(c.Ops), "\n"), r.NonTrivial)
 		if k == 0 {
